@@ -373,7 +373,11 @@ class Engine:
             2D array of output values (rows) for each output variable (columns).
         """
         # TODO: Maybe a property setter like input_values.
-        values = tuple(output_variable.value for output_variable in self.output_variables)
+        values = tuple(
+            np.broadcast_arrays(
+                *(np.atleast_1d(output_variable.value) for output_variable in self.output_variables)
+            )
+        )
         result = np.column_stack(values) if values else np.array(values)
         return result
 
